@@ -240,6 +240,15 @@ def run_case(case):
     from .history import Hist
     prop, spec = case["prop"], case["spec"]
     res = Result(case)
+    if prop == "C01":
+        # the declared dependencies are the ones the property speaks about: every one of them must be in the model
+        I.install()
+        I.set_order(case.get("order") or I.default_order(spec))
+        miss = B.declared_dependencies_missing(B.build(spec), spec)
+        res.count("C01.declared_dependency_checks", sum(len(t["deps"]) for t in spec["tasks"]))
+        if miss:
+            res.violate("C01", "C01/declared-dependency-not-in-the-model",
+                        "append_input_task was called for %s but the model does not hold these links (successor, predecessor, kind)" % (miss[:4],))
     variant = case.get("variant", "single")
     vr = random.Random(case.get("vseed", 0))
     res["source"] = case.get("source")
